@@ -3,7 +3,7 @@ PROP = dict(
     module="M3d.Props.C03",
     corr=dict(quick=500, thorough=3000),
     gen=["Kernels"],
-    tie_modules=["M3d.Lemmas.KernelsTieBounded", "M3d.Lemmas.KernelsTiePolytope"],
+    tie_modules=["M3d.Lemmas.KernelsTieBounded", "M3d.Lemmas.KernelsTiePolytope", "M3d.Lemmas.KernelsTieRectSet"],
     corr_theorems=(
         "kind `tree` compares Min()/Max()/BoundsValid/Contains of the REAL solid built by the library's constructors with "
         "SolidExpr.bounds/contains of the model (M3d.Bd.SolidExpr.eval) on the same expression and points — mode q at Rat (the instance "
@@ -22,7 +22,16 @@ PROP = dict(
         "of its Solid() and Solid().Contains per point with the requirement: the constraints rectCons3/rectCons2 "
         "(M3d.KernelsTie.Polytope.newConvexPolytopeRect(2): the regenerated constructor IS that list), the box test of [min, max] "
         "(rect_polytope_contains), the box [min, max] itself (rect_polytope_mesh_box, min <= max) and the box test again "
-        "(wrapper_does_not_cut_polytope_rect); all arithmetic of the real code is exact on these systems, so mode f is compared exactly too"
+        "(wrapper_does_not_cut_polytope_rect); all arithmetic of the real code is exact on these systems, so mode f is compared exactly too; "
+        "kind `rsprog` runs a program over 2-3 REAL *toolbox3d.RectSet objects (Add, Remove, AddRectSet, RemoveRectSet - also of a set with itself -, "
+        "v = NewRectSet(), Solid() calls whose solids are kept and queried after the whole program) and prints per Solid() call "
+        "`BoundsValid and RectSet.Min()<=Max() finite` plus, per probe point, not contained / contained inside both the solid's box and the "
+        "RectSet.Min()/Max() of that moment / contained outside; the model prints the requirement computed on a store of VALUES (no object shares "
+        "a split slice or the rect map with another): `1:` + `some rect stored in the receiver at the time of the call contains the point` - "
+        "justified by rectset_bounds (Min<=Max, the box encloses every stored rect, after every history), wrapper_does_not_cut_rectset "
+        "(newRectSetSolid terminates, Contains = stored-rect test at every point, only inside the reported box), rectset_solid_ordered, "
+        "rectset_program_bounds / rectset_program_final_bounds / rectset_program_solid_ordered (the same at every Solid() call of every program over "
+        "objects) and rectset_program_answers (the driver's output IS that requirement; its internal failure markers are unreachable)"
     ),
     rule=(
         "random expression trees of depth 0..6 (2D and 3D, half exact/half float) over Rect/Sphere/Circle leaves and opaque leaves "
@@ -40,7 +49,14 @@ PROP = dict(
         "outside each face of the reported box (exact: 1/1024..1/4; float: 1.01e-8*scale..), faces/edges/corners, images of the operands' "
         "corners and surfaces. exact mode: dyadic parameters (5 fractional bits, scales ±2^k, unimodular integer matrices) so that every Go "
         "+,-,* is exact — outputs must be EQUAL to the Rat model. distinct = distinct operation lines; #stat counters give the number of "
-        "nodes per constructor, negative scales, disjoint intersections, no-cut evaluations per wrapper, shell points per leaf type"
+        "nodes per constructor, negative scales, disjoint intersections, no-cut evaluations per wrapper, shell points per leaf type. "
+        "stream rsprog (n/4+10 programs, exact): 1/5 free programs of 3-10 statements over 2-3 RectSet objects; 4/5 copy-then-edit: a source set of 1-4 "
+        "boxes of the 0..3 integer lattice (shared faces: 3/5/6/7 splits on an axis, i.e. split slices with spare capacity; sometimes after a Remove, "
+        "sometimes grown again), AddRectSet into an EMPTY receiver (fresh, reset, or filled and emptied), optional Solid(), 1-3 edits of either "
+        "object on the quarter/half/integer lattice (new splits strictly inside the old range; 1/8 of the added boxes flat on x), then Solid() of "
+        "every object; probe points: corners, face centres and centres of every box of the program and 30 points of the grid {coordinates, "
+        "midpoints, 1/2 beyond either end}; #stat rsprog_copy_into_empty_receiver, rsprog_copy_source_axis_with_3_5_6_7_splits, "
+        "rsprog_edit_after_copy_with_new_inner_split count how often the aliasing-sensitive situation was drawn"
     ),
     trusted=[
         "regenerated, not hand-written: lean/M3d/Gen/Kernels.lean (Go->Lean translator harness/hlib/go2lean, run on the current "
@@ -62,6 +78,12 @@ PROP = dict(
         "Not translated (interface / recursion / map-based Mesh): InBounds (its body is that of Rect.Contains, tied), polytopeSolid.Contains "
         "(assembled by hand in polytopeSolidContains), ConvexPolytope.vertex (recursive index sort; modelled as vertex3/vertex2, tied by kind pvert), "
         "Mesh(), addConvexFace",
+        "RectSet objects: the value model (Model/RectSet.lean, Model/RectSetProg.lean, shared with C04) represents the rect map as a duplicate-free "
+        "list and sort.SearchFloat64s by its specification on ascending slices (ascending is part of the proved invariant); a program over *RectSet "
+        "objects is run on a store of values - that the real objects behave like values (no shared slices/maps, Solid() returns an independent tree) "
+        "is exactly what kind rsprog tests on every run, it is not proved about the Go heap; the regenerated toolbox3d.splitRect and Rect.Contains are "
+        "proved equal to the model's by M3d.Lemmas.KernelsTieRectSet (C04's tie, now also an obligation of C03); the box a RectSet reports is only "
+        "required to enclose the set (a looser box is not reported)",
         "modelled, not verified: float64 as an ordered field (mode q is exact by construction of the inputs; mode f re-runs the same model at IEEE doubles and must agree bit for bit, signed zeros identified)",
         "opaque leaves (Cylinder/Cone/Torus/Capsule Contains, Triangle, toolbox ScrewSolid, Teardrop2D/3D, SpurGear/HelicalGear, involute profile, LineJoin, RadialCurve, TriangularLine/Ball, HeightMap, RectSet, Ramp, bitmap, mesh solids): their Contains is a function parameter; the hypothesis `Bounded leaf` of bounded_sound is TESTED on the shell stream (kind shell) and is an assumption, not a theorem",
         "SDF / Collider / Metaball operands enter through their contracts (SDFBoxed, ColOK, MBBounded) — assumptions about the operand, used only by the does-not-cut theorems; boundedness of the derived solids needs none of them",
@@ -88,7 +110,10 @@ PROP = dict(
         "polytope_box_encloses — the box of the vertices Mesh() enumerates encloses every bounded, well-conditioned half-space intersection, "
         "2-D and 3-D; rect_polytope_contains / rect_polytope_mesh_box / wrapper_does_not_cut_polytope_rect — NewConvexPolytopeRect(min, max) "
         "is the rect: its half-space test is the box test, the vertices Mesh() enumerates are the eight (four) corners, its Solid() reports "
-        "[min, max] and contains exactly its points), transform_bounds (ApplyBounds encloses the image for Translate/Scale/VecScale/Matrix/JoinedTransform), and the closed-"
+        "[min, max] and contains exactly its points), transform_bounds (ApplyBounds encloses the image for Translate/Scale/VecScale/Matrix/JoinedTransform), toolbox3d.RectSet as an OBJECT (rectset_bounds, wrapper_does_not_cut_rectset, "
+        "rectset_solid_ordered, rectset_program_bounds: after every program of Add/Remove/AddRectSet/RemoveRectSet/NewRectSet over several sets every set "
+        "reports ordered bounds enclosing all its rects and its Solid() is exactly the stored-rect test, so editing a set never moves the bounds of a set "
+        "it was copied from or into), and the closed-"
         "form leaves sphere/rect/capsule/cylinder/cone/torus with circle_axis_bound (circleAxisBound >= the true extent sqrt(1-n_i^2)). "
         "The regenerated source (Go->Lean translation of shapes/polytope code, incl. the loops of ConvexPolytope.Contains/spatialEpsilon) is "
         "proved equal to the model by the tie theorems M3d.KernelsTie.Bounded.* and M3d.KernelsTie.Polytope.* on every run. "
